@@ -469,3 +469,79 @@ CLAUSES = {
 }
 for _k, _f in CLAUSES.items():
     _f.function = {"ps": "permute_systems", "vec": "vec", "unvec": "unvec", "permop": "permutation_operator", "swapop": "swap_operator", "swap": "swap", "ptrace": "partial_trace", "ptranspose": "partial_transpose", "realign": "realignment"}[_k.split(".")[0]]
+
+
+# ------------------------------------------------------------------------------------------ frame / dtype clauses
+def frame_args(p):
+    """the call writes through none of its arguments (array and dimension arguments are bit-identical afterwards) and a second
+    call with the very same argument objects returns the same result"""
+    import copy
+
+    import toqito.channels as ch
+    import toqito.perms as pm
+
+    fn = p["fn"]
+    rd, cd = p["rdims"], p.get("cdims") or p["rdims"]
+    X = _entries((int(np.prod(rd)), int(np.prod(cd))), "arange").astype(float)
+    two_row = np.array([list(rd), list(cd)])
+    one_row = np.array(list(rd))
+    dimarg = two_row if p.get("dimform", "2row-array") == "2row-array" else one_row
+    if fn == "partial_transpose":
+        args = [X, np.array(p.get("sys", [0])), dimarg]
+        f = ch.partial_transpose
+    elif fn == "partial_trace":
+        args = [X, list(p.get("sys", [0])), one_row]
+        f = ch.partial_trace
+    elif fn == "realignment":
+        args = [X, dimarg]
+        f = ch.realignment
+    elif fn == "permute_systems":
+        args = [X, np.array(p["perm"]), dimarg]
+        f = pm.permute_systems
+    elif fn == "swap":
+        args = [X, list(p.get("sys", [1, 2])), dimarg]
+        f = pm.swap
+    else:
+        raise ValueError(fn)
+    before = copy.deepcopy(args)
+    r1 = f(*args)
+    for i, (a, b) in enumerate(zip(args, before)):
+        if not (np.array_equal(np.asarray(a), np.asarray(b)) and np.asarray(a).shape == np.asarray(b).shape):
+            raise Violation("%s modified its argument #%d: %s -> %s" % (fn, i, np.asarray(b).tolist(), np.asarray(a).tolist()))
+    r2 = f(*args)
+    if np.asarray(r1).shape != np.asarray(r2).shape or not np.array_equal(np.asarray(r1), np.asarray(r2)):
+        raise Violation("%s: a second call with the same argument objects returned a different result" % fn)
+    r3 = f(*copy.deepcopy(before))
+    if np.asarray(r1).shape != np.asarray(r3).shape or not np.array_equal(np.asarray(r1), np.asarray(r3)):
+        raise Violation("%s: result depends on earlier calls" % fn)
+
+
+def int_dtype(p):
+    """integer dtypes: entries are gathered exactly and sums are the exact integer sums (no wrap-around in a narrow dtype)"""
+    from toqito.channels import partial_trace, partial_transpose
+    from toqito.perms import permute_systems
+
+    dt = np.dtype(p["dtype"])
+    d = p["dims"]
+    N = int(np.prod(d))
+    hi = 1 if dt == np.bool_ else int(np.iinfo(dt).max)
+    X = np.full((N, N), hi, dtype=dt)
+    X[0, 0] = 0 if dt == np.bool_ else hi - 1
+    S = list(p["sys"])
+    got = np.asarray(partial_trace(X, S, list(d)))
+    exp = R.ref_partial_trace(X.astype(object), S, d)
+    if got.shape != exp.shape or any(int(got[i]) != int(exp[i]) for i in np.ndindex(*exp.shape)):
+        raise Violation("partial_trace on dtype %s: got %s, exact integer sums are %s" % (dt, got.tolist(), exp.tolist()))
+    perm = list(range(1, len(d))) + [0]
+    g2 = np.asarray(permute_systems(X, perm, list(d)))
+    if not np.array_equal(g2.astype(object), R.ref_permute(X.astype(object), perm, d, d)):
+        raise Violation("permute_systems on dtype %s changes entries" % dt)
+    g3 = np.asarray(partial_transpose(X, [0], list(d)))
+    if not np.array_equal(g3.astype(object), R.ref_partial_transpose(X.astype(object), [0], d, d)):
+        raise Violation("partial_transpose on dtype %s changes entries" % dt)
+
+
+CLAUSES["frame.args"] = frame_args
+CLAUSES["int_dtype"] = int_dtype
+frame_args.function = "index-layer frame"
+int_dtype.function = "partial_trace"
